@@ -440,6 +440,12 @@ class C07(Prop):
                     for key in KEYS:
                         vals = set(x[key] for x in getattr(a, acc) if key in x and isinstance(x[key], str))
                         for v in vals:
+                            if sum(1 for x in getattr(a, acc) if key in x and x[key] == v) > 1:
+                                # several siblings carry this value (legal for identifiers under the DEFAULT policy,
+                                # or produced by tampering with the reserved '.NS' entry): which of them an exact
+                                # lookup returns is the open C10/C13 finding, not a property of the copy
+                                w.count("probe.lookup_on_duplicated_value_skipped")
+                                continue
                             ra = [list(getattr(a, acc)).index(x) for x in getter(a, v, key=key)]
                             rb = [list(getattr(b, acc)).index(x) for x in getter(b, v, key=key)
                                   if any(x is y for y in getattr(b, acc))]
